@@ -607,7 +607,7 @@ class DepolarizingNoise(AdditionNoiseBase):
 
             for p_i, tableau_i in state_rep.mixture:
                 for k in range(len(trans_iter)):
-                    if p_i * factors[k] > 0:
+                    if factors[k] > 0:
                         new_tableau_i = tableau_i.copy()
                         for pauli_j, qubit_position in zip(trans_iter[k], reg_list):
                             new_tableau_i = pauli_j(new_tableau_i, qubit_position)
